@@ -122,6 +122,9 @@ where
         }
     }
 
+    #[cfg(fidget_verif)]
+    let tiles = fidget_core::verif::SimVec::new(tiles);
+
     let mut rh = RenderHandle::new(shape);
 
     let _ = rh.i_tape(&mut vec![]); // populate i_tape before cloning
